@@ -1,4 +1,5 @@
 import LlgoVerif.Lemmas.Chan
+import LlgoVerif.Lemmas.ChanThreads
 /-!
 # C10 — channels and select obey Go's channel semantics under every schedule
 
@@ -111,6 +112,34 @@ theorem recv_after_close (p : Point) (t : Tid) (ch : Chan) (hinv : ChanInv ch) (
   case prepLock c b' => unfold prepBody at h; split at h <;> simp_all
   case endLock c b' => unfold endBody at h; simp_all
 
+/-! ## the channel mutex -/
+
+/-- mutual exclusion: under every schedule at most one thread is inside the critical section of a channel
+    (`notifyOps` is the only place where a thread reaches a scheduling point while holding `p.mutex`), and
+    that thread is the recorded owner of the mutex -/
+theorem mutex_exclusive {caps : List Nat} {progs : List (List Op)} {s : State}
+    (h : Reachable (init caps progs) s) (t1 t2 : Tid) (c : Cid) (hc : c < s.owner.length)
+    (h1 : (s.thread t1).pc.inCS c = true) (h2 : (s.thread t2).pc.inCS c = true) : t1 = t2 := by
+  have a := reachable_mutexInv h t1 c h1 hc
+  have b := reachable_mutexInv h t2 c h2 hc
+  rw [a] at b
+  exact Option.some.inj b
+
+/-- a thread waiting at `p.mutex.Lock()` of a channel whose critical section is occupied is not runnable -/
+theorem mutex_blocks {caps : List Nat} {progs : List (List Op)} {s : State}
+    (h : Reachable (init caps progs) s) (t1 t2 : Tid) (p : Point) (hc : p.chan < s.owner.length)
+    (h1 : (s.thread t1).pc.inCS p.chan = true) (h2 : (s.thread t2).pc = .at p) : runnable s t2 = false := by
+  have a := reachable_mutexInv h t1 p.chan h1 hc
+  simp [runnable, h2, wantedChan, a]
+
+/-- the hypotheses are satisfiable: a sender that found no receiver is inside `notifyOps` (waking a registered
+    select) while it holds the mutex of channel 0 -/
+example : ∃ s, Reachable (init [0] [[.select [⟨0, false, 0⟩] true], [.send 0 1]]) s ∧
+    (s.thread 1).pc.inCS 0 = true ∧ 0 < s.owner.length := by
+  refine ⟨(runSched (init [0] [[.select [⟨0, false, 0⟩] true], [.send 0 1]])
+      [.step 0, .step 0, .step 1, .step 1]).getD (init [] []), ?_, by decide, by decide⟩
+  exact reachable_runSched Reachable.init [.step 0, .step 0, .step 1, .step 1] (by decide)
+
 /-! ## select -/
 
 /-- readiness of a select case at the instant its poll runs (mutex held): what Go calls "the case can proceed" -/
@@ -151,19 +180,40 @@ theorem select_commit_records_polled_case (th : Thread) (sl : Sel) (ok : Bool) (
 example : ∃ sl : Sel, sl.blocking = true ∧ sl.cases = [⟨0, true, 5⟩] :=
   ⟨{ cases := [⟨0, true, 5⟩], blocking := true, sendFirst := true, pass := 0, idx := 0, result := none }, rfl, rfl⟩
 
-/-! ## liveness and completeness of delivery: FALSE on the current code -/
+example : ChanInv (newChan 0) ∧ (Point.recvLock 0 0).secondPhase = false ∧
+    (body (.recvLock 0 0) 0 { newChan 0 with closed := true }).out = .unlock (.recv false) := by
+  refine ⟨newChan_inv 0, rfl, ?_⟩; decide
 
-theorem reachable_runSched {s0 s1 s : State} (h0 : Reachable s0 s1) :
-    ∀ (l : List Choice), runSched s1 l = some s → Reachable s0 s := by
-  intro l
-  induction l generalizing s1 with
-  | nil => intro h; simp only [runSched] at h; cases h; exact h0
-  | cons ch rest ih =>
-    intro h
-    simp only [runSched] at h
-    cases ha : apply s1 ch with
-    | none => rw [ha] at h; cases h
-    | some s2 => rw [ha] at h; exact ih (Reachable.next ch h0 ha) h
+example : (trySendBody { newChan 1 with } 7).out = .notify (.finish true (.ret (.trySend true))) := by decide
+example : ∃ ok, (tryRecvBody ((newChan 1).push 7) ⟨0, 0⟩ true).out = .notify (.finish true (.ret (.tryRecv ok true))) :=
+  ⟨true, by decide⟩
+
+/-! ## wake-ups -/
+
+/-- no lost wake-up at the source: a critical section that changes anything a `Cond.Wait` loop tests
+    (`len`, `close`, `getp`) is followed — after `notifyOps`, before anything else — by
+    `p.mutex.Unlock(); p.cond.Broadcast()` -/
+theorem wakeup_follows_change (p : Point) (t : Tid) (ch : Chan)
+    (h : (body p t ch).ch.len ≠ ch.len ∨ (body p t ch).ch.closed ≠ ch.closed ∨ (body p t ch).ch.getp ≠ ch.getp) :
+    ∃ n, (body p t ch).out = .notify (.finish true n) := by
+  cases p <;> simp only [body] at h ⊢
+  case sendLock c v => unfold sendLoop at h ⊢; split <;> (try split) <;> (try split) <;> simp_all [Chan.push, Chan.handOff] <;> (split <;> simp_all)
+  case sendWaitU c v => unfold sendLoop at h ⊢; split <;> (try split) <;> (try split) <;> simp_all [Chan.push, Chan.handOff] <;> (split <;> simp_all)
+  case sendWaitB c v => unfold sendLoop at h ⊢; split <;> (try split) <;> (try split) <;> simp_all [Chan.push, Chan.handOff] <;> (split <;> simp_all)
+  case recvLock c sl => unfold recvLoop at h ⊢; split <;> (try split) <;> (try split) <;> simp_all [Chan.pop]
+  case recvWaitU c sl => unfold recvLoop at h ⊢; split <;> (try split) <;> (try split) <;> simp_all [Chan.pop]
+  case recvWaitB c sl => unfold recvLoop at h ⊢; split <;> (try split) <;> (try split) <;> simp_all [Chan.pop]
+  case recv2Lock c b => unfold recv2Loop at h ⊢; split <;> simp_all
+  case recv2Wait c b => unfold recv2Loop at h ⊢; split <;> simp_all
+  case closeLock c => unfold closeBody at h ⊢; split <;> simp_all
+  case trySendLock c v => unfold trySendBody at h ⊢; split <;> (try split) <;> simp_all [Chan.push, Chan.handOff] <;> (split <;> simp_all)
+  case tryRecvLock c sl a => unfold tryRecvBody at h ⊢; split <;> (try split) <;> (try split) <;> simp_all [Chan.pop]
+  case prepLock c b => unfold prepBody at h ⊢; split <;> simp_all <;> (split at h <;> simp_all)
+  case endLock c b => unfold endBody at h ⊢; simp_all; split at h <;> simp_all
+
+example : (body (.closeLock 0) 0 (newChan 1)).ch.closed ≠ (newChan 1).closed := by decide
+
+/-! ## liveness and completeness of delivery: FALSE on the current code -/
 
 /-- thread `t` is parked in the second phase of an unbuffered receive although its hand-off has been served:
     the channel has since been armed AGAIN, for another thread's variable -/
